@@ -473,6 +473,12 @@ class TextCanvas(Canvas):
         if not rows:
             rows = maxrow - trim_top
 
+        if maxcol == 0 and trim_left == 0 and cols == 0 and 0 <= trim_top and rows > 0 and trim_top + rows <= maxrow:
+            # a zero-column canvas (e.g. the fixed rendering of an empty Text) has empty rows
+            for _ in range(rows):
+                yield []
+            return
+
         if not ((0 <= trim_left < maxcol) and (cols > 0 and trim_left + cols <= maxcol)):
             raise ValueError(trim_left)
         if not ((0 <= trim_top < maxrow) and (rows > 0 and trim_top + rows <= maxrow)):
